@@ -19,9 +19,10 @@ Print Assumptions C14_pickle_roundtrip.
 
 (* not only the canonical dump: EVERY encoding in the syntactic class [accepts]
    (any opcode variants, single or batched container filling in any number of
-   batches, MEMOIZE / BINPUT / PUT after any object, BINGET of memoized strings,
-   numbers, tuples, frozensets and classes - CPython's scheme; not: a shared list /
-   dict / set fetched from the memo) loads to the payload it encodes *)
+   batches, MEMOIZE / BINPUT / PUT after any object, BINGET of any completed memoized
+   object - strings, numbers, classes, tuples, frozensets, and lists / dicts / sets /
+   Opcode / SetOrdered reachable twice: CPython's scheme; not: a container fetched
+   while it is still being filled, i.e. recursive data) loads to the payload it encodes *)
 Theorem C14_accepted_encodings_roundtrip : forall (w : world) (prog : list op) (d : pv),
   calls_ok w -> types_ok w d -> wfp d = true -> accepts prog d = true -> load w prog = Some d.
 Proof. exact accepts_sound. Qed.
